@@ -115,6 +115,8 @@ def run(cmd, cwd=None, timeout=None, check=True, capture=True, extra_env=None):
 
 
 _built = {}
+import threading  # noqa: E402
+_retry_lock = threading.Lock()
 
 
 def build_harness(scratch, name, tags="verif", race=False):
@@ -185,14 +187,26 @@ def tlaps_prove(scratch, module, deps, theorem):
             "theorem": theorem}
 
 
+TRACE_XMX = os.environ.get("VERIF_TRACE_XMX") or "4g"
+
+
 def tlc_trace_one(d, module, cfg, timeout):
+    """One TLC process validating d/trace.ndjson.  The JVM's default maximum heap is a quarter of the machine's memory and it grows lazily
+    up to it; eight validations in parallel, of several checks at a time, were killed by the kernel's OOM killer.  A trace needs far less:
+    the heap is capped (VERIF_TRACE_XMX, default 4g), and a process that died without a TLC error message is run once more, alone."""
     t0 = time.time()
-    p = run(["tlc", "-workers", "1", "-metadir", os.path.join(d, "md"), "-config", cfg, module + ".tla"],
-            cwd=d, timeout=timeout, check=False)
+    jopts = {"JAVA_TOOL_OPTIONS": "-Xss512m -Xmx" + TRACE_XMX}
+    cmd = ["tlc", "-workers", "1", "-metadir", os.path.join(d, "md"), "-config", cfg, module + ".tla"]
+    p = run(cmd, cwd=d, timeout=timeout, check=False, extra_env=jopts)
     out = p.stdout or ""
+    res = os.path.join(d, "result.json")
+    if p.returncode != 0 and not os.path.exists(res) and not any(l.startswith("Error") for l in out.splitlines()):
+        with _retry_lock:
+            shutil.rmtree(os.path.join(d, "md"), ignore_errors=True)
+            p = run(cmd, cwd=d, timeout=timeout, check=False, extra_env={"JAVA_TOOL_OPTIONS": "-Xss512m -Xmx8g"})
+            out = p.stdout or ""
     with open(os.path.join(d, "tlc.log"), "w") as f:
         f.write(out)
-    res = os.path.join(d, "result.json")
     if p.returncode != 0 or "No error has been found" not in out or not os.path.exists(res):
         errs = [l for l in out.splitlines() if l.startswith("Error")][:4]
         raise Inconclusive("TLC trace validation failed in %s: %s" % (d, "; ".join(e[:300] for e in errs) or out[-1200:]))
